@@ -52,11 +52,26 @@ func RenameHelpers(src, suffix string) string {
 			names[fd.Name.Name] = true
 		}
 	}
-	if len(names) == 0 {
+	// types a base declares for itself are private helpers too
+	typeNames := map[string]bool{}
+	for _, d := range p.file.Decls {
+		if gd, ok := d.(*ast.GenDecl); ok && gd.Tok == token.TYPE {
+			for _, sp := range gd.Specs {
+				if ts, ok := sp.(*ast.TypeSpec); ok {
+					typeNames[ts.Name.Name] = true
+				}
+			}
+		}
+	}
+	if len(names) == 0 && len(typeNames) == 0 {
 		return src
 	}
 	ast.Inspect(p.file, func(nd ast.Node) bool {
 		switch x := nd.(type) {
+		case *ast.Ident:
+			if typeNames[x.Name] {
+				x.Name += suffix
+			}
 		case *ast.FuncDecl:
 			if names[x.Name.Name] && x != p.fn {
 				x.Name.Name += suffix
